@@ -1092,7 +1092,50 @@ def check_typed_columns(fails_out):
             return
 
 
+def check_field_lengths(fails_out):
+    """C06: per-document field lengths (small lengths are stored exactly) and the min / max / total length of each field
+    are the same whatever the segment layout, also for documents and segments that have no content in a field."""
+    from whoosh import fields
+    from whoosh.filedb.filestore import RamStorage
+    docs = [{"t": u"alfa bravo"}, {"u": u"charlie"}, {"t": u"alfa", "u": u"delta echo foxtrot"}, {}, {"t": u"golf hotel india juliet kilo"}]
+
+    def dump(cuts, optimize):
+        ix = RamStorage().create_index(fields.Schema(k=fields.ID(stored=True), t=fields.TEXT, u=fields.TEXT))
+        w = ix.writer()
+        for i, d in enumerate(docs):
+            if i in cuts:
+                w.commit(merge=False)
+                w = ix.writer()
+            w.add_document(k=u"%d" % i, **d)
+        w.commit(merge=False)
+        if optimize:
+            ix.writer().commit(optimize=True)
+        with ix.reader() as r:
+            per = {}
+            for dn in r.all_doc_ids():
+                key = int(r.stored_fields(dn)["k"])
+                per[key] = tuple(r.doc_field_length(dn, f) for f in ("t", "u", "k", "nosuchfield"))
+            agg = tuple((r.field_length(f), r.min_field_length(f), r.max_field_length(f)) for f in ("t", "u"))
+        return per, agg
+    exp_per = dict((i, (len(d.get("t", u"").split()), len(d.get("u", u"").split()), 0, 0)) for i, d in enumerate(docs))
+    exp_agg = tuple((sum(v[j] for v in exp_per.values()), min(v[j] for v in exp_per.values()), max(v[j] for v in exp_per.values()))
+                    for j in (0, 1))
+    for cuts, opt in (((), False), ((1,), False), ((1, 2, 3, 4), False), ((2,), True), ((1, 3), True)):
+        try:
+            got = dump(cuts, opt)
+        except Exception as e:
+            fails_out.append({"case": "C06-field-lengths", "detail": "segments cut at %r%s: %s: %s | %s"
+                              % (cuts, " then optimized" if opt else "", type(e).__name__, e, traceback.format_exc()[-300:]), "corpus": None})
+            return
+        if got != (exp_per, exp_agg):
+            fails_out.append({"case": "C06-field-lengths", "detail": "segments cut at %r%s: per-document lengths (t, u, k, unknown) %r, "
+                              "(total, min, max) of t and u %r; expected %r and %r"
+                              % (cuts, " then optimized" if opt else "", got[0], got[1], exp_per, exp_agg), "corpus": None})
+            return
+
+
 def run_deterministic(fails):
+    check_field_lengths(fails)
     check_typed_columns(fails)
     check_mpwriter(fails)
     check_async_deferred(fails)
